@@ -28,6 +28,12 @@ def pyMinQ (a b : Rat) : Rat := if a ≤ b then a else b
 def pyAbsI (a : Int) : Int := if a < 0 then -a else a
 def pyAbsQ (a : Rat) : Rat := if a < 0 then -a else a
 
+/-- `l[i]` and `l[:i]` of a Python list, with Python's negative indices; an index out of range (IndexError in Python) reads 0 -/
+def pyListGet (l : List Int) (i : Int) : Int :=
+  if i < 0 then l.getD (l.length - i.natAbs) 0 else l.getD i.toNat 0
+def pyListTake (l : List Int) (i : Int) : List Int :=
+  if i < 0 then l.take (l.length - i.natAbs) else l.take i.toNat
+
 /-! ### floats that may be NaN (`none`); ±inf is folded into NaN, as in `Model/C06.lean` (every use feeds an
 "outside [0, 1]" or `isnan` test that treats both alike) -/
 def nLift2 (f : Rat → Rat → Rat) : Option Rat → Option Rat → Option Rat
